@@ -1,5 +1,11 @@
 package http2
 
+import (
+	"bufio"
+
+	"github.com/valyala/fasthttp"
+)
+
 // Models of library functions, written in Go and executed by the same engine
 // in place of the originals (errors.Is and errors.As use reflection).
 
@@ -60,4 +66,45 @@ func vStubFastrandUint32n(n uint32) uint32 {
 	vAssume(v < n)
 	vAssume(v < 3 || (vTier() > 0 && v == n-1))
 	return v
+}
+
+// Data.SetData copies the chunk into the frame. With a body of symbolic
+// length the copy cannot be enumerated, so harnesses that only care about
+// which bytes go out opt into this aliasing version.
+//
+//verif:stub (*github.com/dgrr/http2.Data).SetData
+func vStubDataSetDataAlias(d *Data, b []byte) { d.b = b }
+
+// Request.AppendBody with a body of symbolic length: only the byte count is
+// kept.
+//
+//verif:stub (*github.com/valyala/fasthttp.Request).AppendBody
+func vStubReqAppendBodyCount(r *fasthttp.Request, p []byte) {
+	vGhostOf(r).contentLength += len(p)
+}
+
+// vSentFrame is what a frame written through the recording WriteTo stub looked
+// like.
+type vSentFrame struct {
+	kind      FrameType
+	stream    uint32
+	endStream bool
+	data      []byte
+}
+
+var vSent []vSentFrame
+
+// FrameHeader.WriteTo serialises and copies the payload. With a body of
+// symbolic length the copy cannot be enumerated, so the client send-path
+// harnesses record the frame instead (wire layout is C05's business).
+//
+//verif:stub (*github.com/dgrr/http2.FrameHeader).WriteTo
+func vStubWriteToRecord(f *FrameHeader, w *bufio.Writer) (int64, error) {
+	sf := vSentFrame{kind: f.fr.Type(), stream: f.stream}
+	if d, ok := f.fr.(*Data); ok {
+		sf.endStream = d.endStream
+		sf.data = d.b
+	}
+	vSent = append(vSent, sf)
+	return int64(9 + len(sf.data)), nil
 }
